@@ -1,4 +1,5 @@
 import Firefly.Proof.Console
+import Firefly.Proof.ConsoleGrid
 import Firefly.Gen.C19
 /-!
 # C19 — Console drivers paint exactly the addressed cells, never outside the framebuffer
@@ -679,15 +680,32 @@ theorem pix_no_oob (c : VesaFb.Cons) (f : VesaFb.Font) (fb : Array UInt8) (ok : 
   obtain ⟨_, h3, _⟩ := pix_scroll_exact c f fb ok dir w hw
   rw [h1, h2, h3]; simp
 
-/-- **padding_untouched (pixel), partial** — after `Fill` and `Scroll` (any 32-bit arguments)
-every padding byte (offset within its row ≥ `width*bytesPerPixel`) and every byte of the logo
-rows (row < `offsetY`) holds its old value.  (`Write`: see `pix_write_outside`.) -/
-theorem padding_untouched_partial (c : VesaFb.Cons) (f : VesaFb.Font) (fb : Array UInt8) (ok : PixOk c f fb)
-    (x y w h bg dir lines i : Nat)
+/-- **padding_untouched (pixel)** — after `Write`, `Fill` and `Scroll` (any arguments) every
+padding byte (offset within its row ≥ `width*bytesPerPixel`) and every byte of the logo rows
+(row < `offsetY`) holds its old value.  (Stated on the specifications, which the operations are
+proved to compute: `pix_write_frame`, `pix_fill_clip`, `pix_scroll_exact`.) -/
+theorem padding_untouched (c : VesaFb.Cons) (f : VesaFb.Font) (fb : Array UInt8) (ok : PixOk c f fb)
+    (ch fg x y w h bg dir lines i : Nat)
     (hi : c.width * c.bytesPerPixel ≤ i % c.pitch ∨ i / c.pitch < c.offsetY) :
+    pixWrite c f (view8 fb) ch fg bg x y i = view8 fb i ∧
     pixFill c f (view8 fb) x y w h bg i = view8 fb i ∧ pixScroll c f (view8 fb) dir lines i = view8 fb i := by
   obtain ⟨g1, g2, g3, g4, g5, g6, g7, g8⟩ := geom ok
-  constructor
+  refine ⟨?_, ?_, ?_⟩
+  · simp only [pixWrite]
+    split
+    · rename_i hin
+      simp only [paint]
+      have hx1 : x * f.gw ≤ c.cols * f.gw := Nat.mul_le_mul_right _ hin.2.1
+      have hy0 : (y - 1) * f.gh ≤ y * f.gh := Nat.mul_le_mul_right _ (by omega)
+      have hnot : ¬ (c.offsetY + (y - 1) * f.gh ≤ i / c.pitch ∧ i / c.pitch < c.offsetY + y * f.gh ∧
+          (x - 1) * f.gw ≤ i % c.pitch / c.bytesPerPixel ∧ i % c.pitch / c.bytesPerPixel < x * f.gw) := by
+        intro ⟨a1, a2, a3, a4⟩
+        rcases hi with hi | hi
+        · have : c.width ≤ i % c.pitch / c.bytesPerPixel := (Nat.le_div_iff_mul_le g3).2 hi
+          omega
+        · omega
+      rw [if_neg hnot]
+    · rfl
   · simp only [pixFill, paint, fillRect]
     have hx1 : min (clamp x c.cols - 1 + w) c.cols * f.gw ≤ c.cols * f.gw := Nat.mul_le_mul_right _ (by omega)
     have hnot : ¬ (c.offsetY + (clamp y c.rows - 1) * f.gh ≤ i / c.pitch ∧
@@ -756,5 +774,227 @@ theorem pack_color (c : VesaFb.Cons) (idx : Nat) (rgb : UInt8 × UInt8 × UInt8)
 /-- non-vacuity: white in 5-6-5 is `0xFFFF`; a 12-bit red mask contributes nothing -/
 example : VesaFb.packed { VesaFb.new 8 8 16 16 11 5 5 6 0 5 with } (255, 255, 255) 65536 = 65535 := by decide
 example : VesaFb.component 255 12 0 65536 = 0 := by decide
+
+
+/-! ## refinement of the abstract cell-grid console of C18 (`Spec/Term.lean`) -/
+section Refines
+open Firefly.Vt Firefly.Term Firefly.VtCons Firefly.ConsoleGrid
+
+/-- a console call executed by the text-console model -/
+def textApply (c : VgaText.Cons) (fb : Array UInt16) : Call → Option (Array UInt16)
+  | .write ch fg bg x y => VgaText.write c fb ch.toNat fg.toNat bg.toNat x y
+  | .scroll dir n => VgaText.scroll c fb dir n
+  | .fill x y w h fg bg => VgaText.fill c fb x y w h fg.toNat bg.toNat
+
+/-- a console call executed by the pixel-console model -/
+def pixApply (c : VesaFb.Cons) (fb : Array UInt8) : Call → Option (Array UInt8)
+  | .write ch fg bg x y => VesaFb.write c fb ch.toNat fg.toNat bg.toNat x y
+  | .scroll dir n => VesaFb.scroll c fb dir n
+  | .fill x y w h fg bg => VesaFb.fill c fb x y w h fg.toNat bg.toNat
+
+/-- the text console shows colours of its palette only (others are replaced by the defaults) -/
+def CallColors (n : Nat) : Call → Prop
+  | .write _ fg bg _ _ => fg.toNat < n ∧ bg.toNat < n
+  | _ => True
+
+private theorem scrollUp_is_zero : Firefly.Gen.C17.scrollDirUp = 0 := by decide
+
+/-- **refines_grid (text)** — if the text framebuffer displays the abstract console `k` (every
+cell holds the character/attribute word of `k`'s cell), then for every call inside the grid
+(`CallOk`; `Write` colours from the palette) the model does not panic, the new framebuffer
+displays `k.apply call`, and no draw request fell outside the grid.  The conclusion re-establishes
+the hypotheses, so the theorem chains over call logs (`text_refines_grid_log`). -/
+theorem text_refines_grid (c : VgaText.Cons) (fb : Array UInt16) (ok : TextOk c fb) (hclear : c.clearChar = 32)
+    (k : Console) (wf : WF k) (sh : TextShows c (view16 fb) k) (call : Call)
+    (hok : CallOk k.w k.h call) (hcol : CallColors c.paletteLen call) :
+    ∃ fb', textApply c fb call = some fb' ∧ TextOk c fb' ∧ TextShows c (view16 fb') (k.apply call) ∧
+      WF (k.apply call) ∧ (k.apply call).outside = k.outside := by
+  have hw := sh.1; have hh := sh.2.1
+  have hW : c.width ≤ c.width * c.height := Nat.le_mul_of_pos_right _ ok.h1
+  have hH : c.height ≤ c.width * c.height := Nat.le_mul_of_pos_left _ ok.w1
+  have hsm := ok.small
+  have keep : ∀ fb' : Array UInt16, fb'.size = fb.size → TextOk c fb' := fun fb' h =>
+    ⟨ok.w1, ok.h1, ok.small, by rw [h, ok.size], ok.pal⟩
+  cases call with
+  | write ch fg bg x y =>
+    simp only [CallOk] at hok
+    simp only [CallColors] at hcol
+    obtain ⟨fb', h1, h2, h3⟩ := text_write_frame c fb ok ch.toNat fg.toNat bg.toNat x y (by omega) (by omega)
+    obtain ⟨s1, s2, s3⟩ := text_write_shows c (view16 fb) k wf sh ch fg bg x y hok (by have := ok.pal; omega)
+    refine ⟨fb', h1, keep fb' h2, ?_, s2, s3⟩
+    exact textShows_congr c _ _ _ (fun i hi => h3 i (by rw [ok.size]; exact hi)) s1
+  | scroll dir n =>
+    simp only [CallOk] at hok
+    obtain ⟨hd, hn1, hn2⟩ := hok
+    have hd0 : dir = 0 := hd.trans scrollUp_is_zero
+    obtain ⟨fb', h1, h2, h3⟩ := text_scroll_exact c fb ok dir n (by omega)
+    obtain ⟨s1, s2, s3⟩ := text_scroll_shows c (view16 fb) k wf sh n ⟨hn1, hn2⟩
+    have ha : k.apply (.scroll dir n) = k.scrollUp n := by simp [Console.apply, hd]
+    rw [ha]
+    refine ⟨fb', h1, keep fb' h2, ?_, s2, s3⟩
+    rw [hd0] at h3
+    exact textShows_congr c _ _ _ (fun i hi => h3 i (by rw [ok.size]; exact hi)) s1
+  | fill x y w h fg bg =>
+    simp only [CallOk] at hok
+    obtain ⟨fb', h1, h2, h3⟩ := text_fill_clip c fb ok x y w h fg.toNat bg.toNat (by omega) (by omega) (by omega) (by omega)
+    obtain ⟨s1, s2, s3⟩ := text_fill_shows c (view16 fb) k wf sh x y w h fg bg hok hclear
+    refine ⟨fb', h1, keep fb' h2, ?_, s2, s3⟩
+    exact textShows_congr c _ _ _ (fun i hi => h3 i (by rw [ok.size]; exact hi)) s1
+
+/-- **refines_grid (pixel)** — if the pixel framebuffer displays the abstract console `k` (every
+cell shows its glyph in its packed colours), then for every call inside the grid the model does
+not panic, the new framebuffer displays `k.apply call`, and no draw request fell outside the
+grid.  Needs a blank space glyph (`SpaceBlank`: generated fact for the shipped fonts) so that a
+`Fill` equals writing spaces, and — for `Scroll` only — a text area that is a whole number of
+glyph rows (`hfit`); without it the last `lines` rows are not preserved, see
+`pix_refines_grid_scroll_moved`. -/
+theorem pix_refines_grid (c : VesaFb.Cons) (f : VesaFb.Font) (fb : Array UInt8) (ok : PixOk c f fb) (fok : FontOk f)
+    (hsp : SpaceBlank f) (k : Console) (wf : WF k) (sh : PixShows c f (view8 fb) k) (call : Call)
+    (hok : CallOk k.w k.h call)
+    (hfit : ∀ dir n, call = .scroll dir n → c.offsetY + c.rows * f.gh = c.height) :
+    ∃ fb', pixApply c fb call = some fb' ∧ PixOk c f fb' ∧ PixShows c f (view8 fb') (k.apply call) ∧
+      WF (k.apply call) ∧ (k.apply call).outside = k.outside := by
+  have hw := sh.1; have hh := sh.2.1
+  obtain ⟨g1, g2, g3, g4, g5, g6, g7, g8⟩ := geom ok
+  have g : Geo c f := ⟨ok.gw1, ok.gh1, g3, g1, g2⟩
+  have hcc : c.cols ≤ c.cols * f.gw := Nat.le_mul_of_pos_right _ ok.gw1
+  have hrr : c.rows ≤ c.rows * f.gh := Nat.le_mul_of_pos_right _ ok.gh1
+  have keep : ∀ fb' : Array UInt8, fb'.size = fb.size → PixOk c f fb' := fun fb' h =>
+    { ok with size := by rw [h, ok.size] }
+  cases call with
+  | write ch fg bg x y =>
+    simp only [CallOk] at hok
+    obtain ⟨fb', h1, h2, h3⟩ := pix_write_frame c f fb ok fok ch.toNat fg.toNat bg.toNat x y
+      (UInt8.toNat_lt _) (UInt8.toNat_lt _) (UInt8.toNat_lt _) (by omega) (by omega)
+    obtain ⟨s1, s2, s3⟩ := pix_write_shows c f (view8 fb) k wf sh ch fg bg x y hok
+    refine ⟨fb', h1, keep fb' h2, ?_, s2, s3⟩
+    exact pixShows_congr c f g g7 _ _ _ (fun i hi => h3 i (by rw [ok.size]; exact hi)) s1
+  | scroll dir n =>
+    simp only [CallOk] at hok
+    obtain ⟨hd, hn1, hn2⟩ := hok
+    have hd0 : dir = 0 := hd.trans scrollUp_is_zero
+    obtain ⟨fb', h1, h2, h3⟩ := pix_scroll_exact c f fb ok dir n (by omega)
+    obtain ⟨s1, s2, s3⟩ := pix_scroll_shows c f g g7 (hfit dir n rfl) (view8 fb) k wf sh n ⟨hn1, hn2⟩
+    have ha : k.apply (.scroll dir n) = k.scrollUp n := by simp [Console.apply, hd]
+    rw [ha]
+    refine ⟨fb', h1, keep fb' h2, ?_, s2, s3⟩
+    rw [hd0] at h3
+    exact pixShows_congr c f g g7 _ _ _ (fun i hi => h3 i (by rw [ok.size]; exact hi)) s1
+  | fill x y w h fg bg =>
+    simp only [CallOk] at hok
+    obtain ⟨fb', h1, h2, h3⟩ := pix_fill_clip c f fb ok x y w h fg.toNat bg.toNat (by omega) (by omega) (by omega) (by omega)
+      (UInt8.toNat_lt _)
+    obtain ⟨s1, s2, s3⟩ := pix_fill_shows c f g hsp (view8 fb) k wf sh x y w h fg bg hok
+    refine ⟨fb', h1, keep fb' h2, ?_, s2, s3⟩
+    exact pixShows_congr c f g g7 _ _ _ (fun i hi => h3 i (by rw [ok.size]; exact hi)) s1
+
+/-- **refines_grid (pixel scroll, any geometry)** — when the text area is not a whole number of
+glyph rows, `Scroll` up still makes every line that receives another line's contents display them;
+only the last `lines` rows (which the caller repaints) are not claimed. -/
+theorem pix_refines_grid_scroll_moved (c : VesaFb.Cons) (f : VesaFb.Font) (fb : Array UInt8) (ok : PixOk c f fb)
+    (k : Console) (sh : PixShows c f (view8 fb) k) (n : Nat) (hn : 1 ≤ n ∧ n ≤ k.h) :
+    ∃ fb', VesaFb.scroll c fb 0 n = some fb' ∧ PixOk c f fb' ∧
+      ∀ r col, r + n < k.h → col < k.w → CellShows c f (view8 fb') (col + 1) (r + 1) (k.at (r + n) col) := by
+  have hh := sh.2.1
+  obtain ⟨g1, g2, g3, g4, g5, g6, g7, g8⟩ := geom ok
+  have g : Geo c f := ⟨ok.gw1, ok.gh1, g3, g1, g2⟩
+  have hrr : c.rows ≤ c.rows * f.gh := Nat.le_mul_of_pos_right _ ok.gh1
+  obtain ⟨fb', h1, h2, h3⟩ := pix_scroll_exact c f fb ok 0 n (by omega)
+  refine ⟨fb', h1, { ok with size := by rw [h2, ok.size] }, fun r col hr hc i hi b hb => ?_⟩
+  have hlt : i < fb.size := by
+    obtain ⟨a1, a2, a3, a4⟩ := hi
+    have m : (r + 1) * f.gh ≤ c.rows * f.gh := Nat.mul_le_mul_right _ (by omega)
+    rw [ok.size]
+    exact (Nat.div_lt_iff_lt_mul g7).1 (by omega)
+  rw [h3 i hlt]
+  exact pix_scroll_shows_moved c f g g7 (view8 fb) k sh n hn r col hr hc i hi b hb
+
+/-- non-vacuity: a blank 3×2 text screen displays the blank abstract console; the hypotheses of
+`text_refines_grid` are satisfiable (and `CallOk` calls exist: `Write` at (1,1)) -/
+example : TextShows { width := 3, height := 2 } (view16 (Array.replicate 6 (VgaText.cellWord 32 7 0)))
+    (Console.new 3 2 ⟨32, 7, 0⟩) := by
+  refine ⟨rfl, rfl, fun r col hr hc => ?_⟩
+  have hr' : r < 2 := hr
+  have hc' : col < 3 := hc
+  have hi : r * 3 + col < 6 := by omega
+  simp only [view16, Array.getD_eq_getD_getElem?, Array.getElem?_replicate, if_pos hi]
+  rcases (by omega : r = 0 ∨ r = 1) with h | h <;> subst h <;>
+    rcases (by omega : col = 0 ∨ col = 1 ∨ col = 2) with h | h | h <;> subst h <;> rfl
+example : CallOk 3 2 (.write 65 7 0 1 1) ∧ CallColors 16 (.write 65 7 0 1 1) := by
+  simp [CallOk, CallColors]
+
+/-- non-vacuity: an all-zero 8-bpp framebuffer displays the console whose cells are blanks in
+colour 0 on colour 0 -/
+example : PixShows { bpp := 8, bytesPerPixel := 1, width := 16, height := 16, pitch := 16,
+                     font := some { gw := 8, gh := 16, bpr := 1, data := Array.replicate 4096 0 }, cols := 2, rows := 1,
+                     palette := Array.replicate 256 (0, 0, 0) }
+    { gw := 8, gh := 16, bpr := 1, data := Array.replicate 4096 0 } (view8 (Array.replicate 256 0))
+    (Console.new 2 1 ⟨32, 0, 0⟩) := by
+  refine ⟨rfl, rfl, fun r col hr hc i _ b hb => ?_⟩
+  have hr' : r < 1 := hr
+  have hc' : col < 2 := hc
+  have hcell : (Console.new 2 1 ⟨32, 0, 0⟩).at r col = ⟨32, 0, 0⟩ := by
+    have h0 : r = 0 := by omega
+    subst h0
+    rcases (by omega : col = 0 ∨ col = 1) with h | h <;> subst h <;> rfl
+  rw [hcell] at hb
+  have hv : view8 (Array.replicate 256 (0 : UInt8)) i = 0 := by
+    simp only [view8, Array.getD_eq_getD_getElem?, Array.getElem?_replicate]
+    split <;> rfl
+  rw [hv]
+  simp only [cellByte, colorBytes, VesaFb.pixelBytes] at hb
+  simp [Nat.mod_one] at hb
+  first | exact hb | exact hb.symm
+
+/-- a call log (newest first, as `VT.out` keeps it) executed by the models -/
+def textRun (c : VgaText.Cons) (fb : Array UInt16) (log : List Call) : Option (Array UInt16) :=
+  log.foldr (fun call acc => acc.bind fun fb => textApply c fb call) (some fb)
+def pixRun (c : VesaFb.Cons) (fb : Array UInt8) (log : List Call) : Option (Array UInt8) :=
+  log.foldr (fun call acc => acc.bind fun fb => pixApply c fb call) (some fb)
+
+/-- **refines_grid (text, call logs)** — a whole log of in-grid calls: the text console ends up
+displaying `k.applyLog log`, never panics, nothing drawn outside. -/
+theorem text_refines_grid_log (c : VgaText.Cons) (hclear : c.clearChar = 32) (log : List Call) :
+    ∀ (fb : Array UInt16) (k : Console), TextOk c fb → WF k → TextShows c (view16 fb) k →
+      (∀ call ∈ log, CallOk k.w k.h call ∧ CallColors c.paletteLen call) →
+      ∃ fb', textRun c fb log = some fb' ∧ TextOk c fb' ∧ TextShows c (view16 fb') (k.applyLog log) ∧
+        WF (k.applyLog log) ∧ (k.applyLog log).outside = k.outside := by
+  induction log with
+  | nil => intro fb k ok wf sh _; exact ⟨fb, rfl, ok, sh, wf, rfl⟩
+  | cons call rest ih =>
+    intro fb k ok wf sh hall
+    obtain ⟨fb1, r1, ok1, sh1, wf1, o1⟩ := ih fb k ok wf sh (fun c hc => hall c (List.mem_cons_of_mem _ hc))
+    have hwh : (k.applyLog rest).w = k.w ∧ (k.applyLog rest).h = k.h :=
+      ⟨sh1.1.trans sh.1.symm, sh1.2.1.trans sh.2.1.symm⟩
+    have hc := hall call (List.mem_cons_self ..)
+    obtain ⟨fb2, r2, ok2, sh2, wf2, o2⟩ := text_refines_grid c fb1 ok1 hclear (k.applyLog rest) wf1 sh1 call
+      (by rw [hwh.1, hwh.2]; exact hc.1) hc.2
+    refine ⟨fb2, ?_, ok2, sh2, wf2, o2.trans o1⟩
+    simp only [textRun, List.foldr_cons] at r1 ⊢
+    rw [r1]; exact r2
+
+/-- **refines_grid (pixel, call logs)** — the same for the pixel console (text area a whole number
+of glyph rows, blank space glyph). -/
+theorem pix_refines_grid_log (c : VesaFb.Cons) (f : VesaFb.Font) (fok : FontOk f) (hsp : SpaceBlank f)
+    (hfit : c.offsetY + c.rows * f.gh = c.height) (log : List Call) :
+    ∀ (fb : Array UInt8) (k : Console), PixOk c f fb → WF k → PixShows c f (view8 fb) k →
+      (∀ call ∈ log, CallOk k.w k.h call) →
+      ∃ fb', pixRun c fb log = some fb' ∧ PixOk c f fb' ∧ PixShows c f (view8 fb') (k.applyLog log) ∧
+        WF (k.applyLog log) ∧ (k.applyLog log).outside = k.outside := by
+  induction log with
+  | nil => intro fb k ok wf sh _; exact ⟨fb, rfl, ok, sh, wf, rfl⟩
+  | cons call rest ih =>
+    intro fb k ok wf sh hall
+    obtain ⟨fb1, r1, ok1, sh1, wf1, o1⟩ := ih fb k ok wf sh (fun c hc => hall c (List.mem_cons_of_mem _ hc))
+    have hwh : (k.applyLog rest).w = k.w ∧ (k.applyLog rest).h = k.h :=
+      ⟨sh1.1.trans sh.1.symm, sh1.2.1.trans sh.2.1.symm⟩
+    have hc := hall call (List.mem_cons_self ..)
+    obtain ⟨fb2, r2, ok2, sh2, wf2, o2⟩ := pix_refines_grid c f fb1 ok1 fok hsp (k.applyLog rest) wf1 sh1 call
+      (by rw [hwh.1, hwh.2]; exact hc) (fun _ _ _ => hfit)
+    refine ⟨fb2, ?_, ok2, sh2, wf2, o2.trans o1⟩
+    simp only [pixRun, List.foldr_cons] at r1 ⊢
+    rw [r1]; exact r2
+
+end Refines
 
 end Firefly.C19
